@@ -168,6 +168,9 @@ pub struct Net {
     /// The waker of the task whose `read` returned `Pending` last (the transport's side of the waker contract):
     /// woken and cleared by `Net::wake` when bytes arrive, the peer closes or reads start failing.
     pub waker: Option<Waker>,
+    /// Global order of the transport writes of a scenario: every successful write appends `gid` to the shared log.
+    pub gid: usize,
+    pub glog: Option<Rc<RefCell<Vec<usize>>>>,
 }
 
 impl Net {
@@ -279,6 +282,9 @@ impl zlink_core::connection::socket::WriteHalf for SWrite {
                 }
             }
             n.writes.push(data);
+            if let Some(g) = &n.glog {
+                g.borrow_mut().push(n.gid);
+            }
             Ok(())
         }
     }
